@@ -177,6 +177,210 @@ def run_hist(objs, steps, rng):
     return o
 
 
+# ---- sessions (spec/Tree.tla, "SESSIONS"): the caller's dicts, path objects and table objects outlive the calls ------------
+def norm_cell(c):
+    """what TLC printed -> a cell: tagged leaf | ["ref", j] | ["m", {key: cell}] (an inline nested dict)"""
+    if c[0] == 'm':
+        return ['m', {k: norm_cell(v) for k, v in (c[1].items() if isinstance(c[1], dict) else ())}]
+    return c
+
+
+def norm_state(st):
+    return {'objs': [{k: norm_cell(v) for k, v in (n.items() if isinstance(n, dict) else ())} for n in st['objs']],
+            'paths': [{'kind': q['kind'], 'keys': list(q['keys'])} for q in st['paths']],
+            'tabs': [{'kind': tb['kind'], 'rows': [norm_row(r) for r in tb['rows']]} for tb in st['tabs']]}
+
+
+def build_sheap(objs, rng):
+    """abstract heap -> real dict objects; a cell ["ref", j] is THE object j, a cell ["m", ..] a nested dict of its own"""
+    real = [None] * len(objs)
+
+    def cell(c):
+        if c[0] == 'ref':
+            return real[c[1] - 1]
+        if c[0] == 'm':
+            return node(c[1])
+        return untag(c)
+
+    def node(n):
+        d = rng.choice(api()['classes'])()
+        keys = list(n)
+        rng.shuffle(keys)
+        for k in keys:
+            dict.__setitem__(d, k, cell(n[k]))
+        return d
+    for i in reversed(range(len(objs))):
+        real[i] = node(objs[i])
+    return real, cell
+
+
+def enc_sheap(real):
+    """every object of the caller's heap as it is now; a nested dict is named by IDENTITY (["ref", j]) when it is object j of
+    the heap - at every depth - and written out inline (["m", ..]) when it is nobody else's"""
+    ix = {}
+    for j, d in enumerate(real):
+        ix.setdefault(id(d), j + 1)
+
+    def cell(v):
+        if isinstance(v, dict):
+            return ['ref', ix[id(v)]] if id(v) in ix else ['m', {str(k): cell(x) for k, x in dict.items(v)}]
+        return tag(v)
+    return [{str(k): cell(x) for k, x in dict.items(d)} for d in real], cell
+
+
+def build_path(q):
+    return list(q['keys']) if q['kind'] == 'list' else (tuple(q['keys']) if q['kind'] == 'tuple' else '.'.join(q['keys']))
+
+
+def enc_path(p):
+    if isinstance(p, str):
+        return {'kind': 'dotted', 'keys': p.split('.') if p else []}
+    return {'kind': 'list' if isinstance(p, list) else 'tuple', 'keys': [str(k) for k in p]}
+
+
+def build_table(tb):
+    rr = real_rows(tb['rows'])
+    return rr[0] if tb['kind'] == 'dict' else (api()['dictable'](rr) if tb['kind'] == 'dictable' else rr)
+
+
+def enc_table(t):
+    if isinstance(t, api()['dictable']):
+        return {'kind': 'dictable', 'rows': enc_rows(list(t))}
+    if isinstance(t, dict):
+        return {'kind': 'dict', 'rows': enc_rows([t])}
+    return {'kind': 'list', 'rows': enc_rows(t)}
+
+
+def sunfold(objs, i):
+    """the tree an object of a session heap stands for (used to pick arguments, never to judge)"""
+    def cell(c):
+        if c[0] == 'ref':
+            return sunfold(objs, c[1])
+        if c[0] == 'm':
+            return ['m', {k: cell(v) for k, v in c[1].items()}]
+        return c
+    return ['m', {k: cell(c) for k, c in objs[i - 1].items()}]
+
+
+def run_sess(init, calls, rng):
+    """a session on ONE set of real objects: dicts (heap), path objects, table objects.  After every step all of them are
+    encoded again; the result of tree_update / Dict + dict / table_to_tree joins the heap as a new object"""
+    A = api()
+    real, mk = build_sheap(init['objs'], rng)
+    paths = [build_path(q) for q in init['paths']]
+    tabs = [build_table(tb) for tb in init['tabs']]
+
+    def state():
+        return {'objs': enc_sheap(real)[0], 'paths': [enc_path(p) for p in paths], 'tabs': [enc_table(t) for t in tabs]}
+    st0 = state()
+    o = {'op': 'sess', 'objs': st0['objs'], 'paths': st0['paths'], 'tabs': st0['tabs'], 'calls': [], 'steps': []}
+    for k in range(len(calls) if isinstance(calls, list) else 99):
+        c = calls[k] if isinstance(calls, list) else calls(k, state())      # (a chooser sees the encoded state, to stay in the domain)
+        if c is None:
+            break
+        o['calls'].append(c)
+        step = {'call': c}
+        kind = c['kind']
+        cell = enc_sheap(real)[1]                      # results are encoded against the heap as it is BEFORE they join it
+        if kind == 'get':
+            t, p = real[c['rt'] - 1], paths[c['p'] - 1]
+            f = A['tree_getitem'] if c['fn'] == 'getitem' else (lambda tree, item: A['tree_get'](tree, item, 'no such path'))
+            step['out'] = outcome(lambda: cell(f(t, p)))
+        elif kind == 'setitem':
+            t, p = real[c['rt'] - 1], paths[c['p'] - 1]
+            ignore = [untag(x) for x in c['ign']]
+            step['out'] = outcome(lambda: tag(A['tree_setitem'](t, p, untag(c['leaf']), ignore=ignore) if ignore or rng.random() < 0.5
+                                              else A['tree_setitem'](t, p, untag(c['leaf']))))
+        elif kind == 'update':
+            t, u = real[c['rt'] - 1], real[c['ru'] - 1]
+            ignore = [untag(x) for x in c['ign']]
+            form = 'Dict_add' if type(t) is A['Dict'] and not ignore and rng.random() < 0.5 else 'tree_update'
+            step['form'] = form
+            res = []
+            step['out'] = outcome(lambda: cell(res.append((t + u) if form == 'Dict_add' else A['tree_update'](t, u, ignore=ignore)) or res[0]))
+            real += res[:1]
+        elif kind == 'from_table':
+            tb = tabs[c['tb'] - 1]
+            res = []
+            step['out'] = outcome(lambda: cell(res.append(A['table_to_tree'](None, patstr(c['pat']), tb)) or res[0]))
+            real += res[:1]
+        elif kind == 'items':
+            t = real[c['rt'] - 1]
+            items = A['tree_items'](t)
+            keys = A['tree_keys'](t)
+            values = A['tree_values'](t)
+            lists = [list(it) for it in items]                         # the items spelled as lists: caller-owned, mutable
+            step.update({'rebuilt': outcome(lambda: cell(A['items_to_tree'](items))),
+                         'rebuilt_lists': outcome(lambda: cell(A['items_to_tree'](lists))),
+                         'items': [[list(it[:-1]), tag(it[-1])] for it in items],
+                         'keys': [list(k) for k in keys], 'values': [tag(v) for v in values],
+                         'lists_after': [[['k', str(k)] for k in it[:-1]] + [tag(x) for x in it[-1:]] for it in lists]})
+        elif kind == 'to_table':
+            t = real[c['rt'] - 1]
+            form = rng.choice(['tree_to_table', 'dictable'])
+            rows = outcome(lambda: enc_rows(_rows_of(t, c['pat'], form)))
+            exc = rows[1] if rows[:1] == ['exc'] else ''
+            step.update({'form': form, 'rows': [] if exc else rows, 'exc': exc})
+        elif kind == 'edit':                                            # the caller's own writes
+            dict.__setitem__(real[c['obj'] - 1], c['key'], mk(c['cell']))
+        elif kind == 'setpath':
+            paths[c['p'] - 1][:] = list(c['keys'])
+        elif kind == 'setrow':
+            tb = tabs[c['tb'] - 1]
+            (tb if isinstance(tb, dict) else tb[c['row'] - 1])[c['var']] = untag(c['val'])
+        else:
+            raise ValueError(kind)
+        step['after'] = state()
+        o['steps'].append(step)
+        if step.get('out', [''])[:1] == ['exc']:
+            break                                                       # nothing sensible can follow a call that raised
+    return o
+
+
+def sess_fails(want, got):
+    """names of the fields of a replayed session that are not == to what TLC printed, step by step"""
+    fails = []
+    for k, w in enumerate(want):
+        if k >= len(got):
+            break
+        g, kind = got[k], w['call']['kind']
+        bad = []
+        if kind in ('get', 'setitem'):
+            bad += ['out'] if g['out'] != w['out'] else []
+        elif kind in ('update', 'from_table'):
+            bad += ['out'] if g['out'] != norm_cell(w['out']) else []
+        elif kind == 'items':
+            t = norm_cell(w['out']['t'])
+            items = [[list(q), v] for q, v in w['out']['items']]
+            if not (canon(g['items']) == canon(items) and g['keys'] == [it[0] for it in g['items']] and g['values'] == [it[1] for it in g['items']]
+                    and g['rebuilt'] == t and g['rebuilt_lists'] == t):
+                bad.append('out')
+            if g['lists_after'] != [[['k', k_] for k_ in it[0]] + [it[1]] for it in g['items']]:
+                bad.append('items_argument')
+        elif kind == 'to_table':
+            bad += ['out'] if g['exc'] or canon(g['rows']) != canon([norm_row(r) for r in w['out']]) else []
+        after = norm_state(w['after'])
+        bad += [x for x in ('objs', 'paths', 'tabs') if g['after'][x] != after[x]]
+        fails += ['step%d_%s_%s' % (k + 1, kind, x) for x in bad]
+    return tuple(fails)
+
+
+def s2c_sess(ctx, log, cases):
+    """sessions TLC enumerated: every call must return what the law says about its arguments as they are at that moment, and
+    after every step every object of the caller (dicts by identity, path objects, table objects) must be what TLC printed"""
+    for n, c in enumerate(cases):
+        init = norm_state(c)
+        calls = [st['call'] for st in c['steps']]
+        o = run_sess(init, calls, ctx.rng)
+        if {k: o[k] for k in ('objs', 'paths', 'tabs')} != init:
+            raise Machinery('session objects do not round-trip: %r' % (init,))
+        log.s2c(o, sess_fails(c['steps'], o['steps']))
+        ctx.note(('sess', json.dumps([init, calls], sort_keys=True)))
+        ctx.traces += 1
+        if n % 3001 == 1700:
+            ctx.sample({'s2c_session': {'objs': init['objs'], 'paths': init['paths'], 'tabs': init['tabs'], 'calls': calls}})
+
+
 def outcome(f):
     try:
         return f()
@@ -319,7 +523,7 @@ def fails_update(o, want):
     return tuple(f)
 
 
-CASE_KEYS = ('op', 'form', 't', 'u', 'ign', 'path', 'leaf', 'pat', 'rows', 'objs', 'rt', 'ru', 'hist')
+CASE_KEYS = ('op', 'form', 't', 'u', 'ign', 'path', 'leaf', 'pat', 'rows', 'objs', 'rt', 'ru', 'hist', 'paths', 'tabs', 'calls')
 
 
 # ---- S2C: replay of the cases TLC enumerated ---------------------------------------------------
@@ -568,6 +772,104 @@ def rand_pattern(rng, t, keys):
     return pat
 
 
+def no_ref_on_walk(node, keys):
+    for k in keys:
+        if k not in node:
+            return True
+        c = node[k]
+        if c[0] == 'ref':
+            return False
+        if c[0] != 'm':
+            return True
+        node = c[1]
+    return True
+
+
+def rand_sess(rng, keys, leaves):
+    """a random world (heap with shared and inline branches and maybe an empty dict, 4 path objects, 3 table objects) and a
+    chooser of 3-7 steps that looks at the encoded state only to stay inside the domain (listed paths, unique row paths)"""
+    objs, rt, ru = rand_heap(rng, keys, leaves)
+    for n in objs:
+        for k in list(n):
+            if n[k][0] != 'ref' and rng.random() < 0.2:
+                n[k] = rand_tree(rng, 2, keys, leaves, False)
+    if rng.random() < 0.3:
+        objs.append({})
+    listed = [q for i in range(1, len(objs) + 1) for q, _ in items_of(sunfold(objs, i))]
+
+    def kind_for(q):
+        return rng.choice(['list', 'list', 'tuple', 'dotted'] if spellable(q) and all(q) else ['list', 'list', 'tuple'])
+    paths = []
+    for _ in range(4):
+        q = rng.choice(listed) if listed and rng.random() < 0.85 else [rng.choice(keys) for _ in range(rng.choice([1, 2]))]
+        paths.append({'kind': kind_for(q), 'keys': list(q)})
+    # tables for one pattern that ends in a wildcard (the leaf)
+    n = rng.choice([2, 2, 3, 4])
+    names = ['x', 'y', 'z', 'w']
+    pat = [['var', names[i]] if i == n - 1 or rng.random() < 0.6 else ['lit', rng.choice(keys)] for i in range(n)]
+    lastvar = pat[-1][1]
+
+    def rand_rows(m):
+        rows, seen = [], set()
+        for _ in range(m * 3):
+            r = {name: (["s", rng.choice(keys)] if name != lastvar else rng.choice(LEAVES)) for k, name in pat if k == 'var'}
+            key = tuple(r[name][1] if k == 'var' else name for k, name in pat[:-1])
+            if key not in seen and len(rows) < m:
+                seen.add(key); rows.append(r)
+        return rows
+    tabs = [{'kind': 'dict', 'rows': rand_rows(1)}, {'kind': 'list', 'rows': rand_rows(rng.choice([1, 2, 3]))},
+            {'kind': rng.choice(['dictable', 'list']), 'rows': rand_rows(rng.choice([1, 2]))}]
+    init = {'objs': objs, 'paths': paths, 'tabs': tabs}
+    nsteps = rng.choice([3, 4, 5, 6, 7])
+
+    def choose(k, st):
+        if k >= nsteps:
+            return None
+        objs, m = st['objs'], len(st['objs'])
+        for _ in range(20):
+            kind = rng.choice(['get', 'get', 'get', 'setitem', 'setitem', 'update', 'update', 'items', 'to_table', 'from_table',
+                               'edit', 'setpath', 'setrow'] if k else ['get', 'get', 'setitem', 'update', 'update', 'items', 'to_table', 'from_table'])
+            rt = rng.randrange(1, m + 1)
+            T = sunfold(objs, rt)
+            its = [q for q, _ in items_of(T)] if T[1] else []
+            if kind == 'get':
+                ps = [j + 1 for j, q in enumerate(st['paths']) if q['keys'] in its]
+                if ps:
+                    return {'kind': 'get', 'fn': rng.choice(['getitem', 'get']), 'rt': rt, 'p': rng.choice(ps)}
+            elif kind == 'setitem':
+                ps = [j + 1 for j, q in enumerate(st['paths']) if q['keys'] and no_ref_on_walk(objs[rt - 1], q['keys'][:-1])]
+                if ps:
+                    return {'kind': 'setitem', 'rt': rt, 'p': rng.choice(ps), 'leaf': rng.choice(leaves), 'ign': rng.choice([[], [], [["n", 0]], rng.sample(leaves, 1)])}
+            elif kind == 'update':
+                return {'kind': 'update', 'rt': rt, 'ru': rng.choice([rt, rng.randrange(1, m + 1), m]), 'ign': rng.choice([[], [], [], [["n", 0]]])}
+            elif kind == 'items':
+                return {'kind': 'items', 'rt': rt}
+            elif kind == 'to_table':
+                return {'kind': 'to_table', 'rt': rt, 'pat': rand_pattern(rng, T, keys)}
+            elif kind == 'from_table':
+                tb = rng.randrange(1, len(st['tabs']) + 1)
+                rows = st['tabs'][tb - 1]['rows']
+                sig = [tuple(r[name][1] if kk == 'var' else name for kk, name in pat[:-1]) for r in rows]
+                if len(set(sig)) == len(sig) and len(set(json.dumps(r, sort_keys=True) for r in rows)) == len(rows):
+                    return {'kind': 'from_table', 'tb': tb, 'pat': pat}
+            elif kind == 'edit':
+                later = [x for x in range(rt + 1, m + 1) if objs[x - 1]]
+                cell = ['ref', rng.choice(later)] if later and rng.random() < 0.25 else rng.choice(leaves)
+                return {'kind': 'edit', 'obj': rt, 'key': rng.choice(list(objs[rt - 1]) + keys), 'cell': cell}
+            elif kind == 'setpath':
+                ps = [j + 1 for j, q in enumerate(st['paths']) if q['kind'] == 'list']
+                if ps:
+                    q = rng.choice(its) if its and rng.random() < 0.8 else [rng.choice(keys)]
+                    return {'kind': 'setpath', 'p': rng.choice(ps), 'keys': list(q)}
+            elif kind == 'setrow':
+                tbs = [j + 1 for j, t_ in enumerate(st['tabs']) if t_['kind'] in ('dict', 'list') and t_['rows']]
+                if tbs:
+                    tb = rng.choice(tbs)
+                    return {'kind': 'setrow', 'tb': tb, 'row': rng.randrange(1, len(st['tabs'][tb - 1]['rows']) + 1), 'var': lastvar, 'val': rng.choice(LEAVES)}
+        return None
+    return init, choose
+
+
 def c2s(ctx, log, n):
     rng = ctx.rng
     for i in range(n):
@@ -653,6 +955,12 @@ def c2s(ctx, log, n):
                 else:
                     steps.append({'kind': 'items', 'rt': rng.choice([rt, ru])})
             log.c2s(run_hist(objs, steps, rng))
+        # a session: dicts, path objects and table objects that outlive the calls; results join the heap and are edited in place
+        for _ in range(2):
+            init, choose = rand_sess(rng, keys, leaves)
+            o = run_sess(init, choose, rng)
+            log.c2s(o)
+            ctx.note(('c2s-sess', json.dumps([init, o['calls']], sort_keys=True)))
         if i % 97 == 5:
             ctx.sample({'c2s_observation': log.obs[-1]})
 
@@ -696,6 +1004,13 @@ def run(ctx):
                                      'violates ResultIsMerge (thorough) (expected, must-fail runs); copying every branch + walking the unfolding satisfies both.  '
                                      'MC_Tree/EAFPLookupIsMerge (thorough): _tree_setitem with one dictattr lookup res[key] resolves a missing '
                                      'dotted key as a path and is refuted (must-fail run); MC_TreeHist/CallsAreMerges (thorough): a memo of the last flattened update keyed on object identity is refuted over histories call ; edit ; call')
+    # sessions: the caller's dicts, path objects and table objects outlive the calls (law against the code's loops, and the
+    # three seeded mechanisms - consumed list path, result that IS the operand, one dict read as columns - refuted)
+    ctx.mc('MC_TreeSess', 'MC_TreeSess_quick.cfg' if ctx.quick else 'MC_TreeSess_thorough.cfg')
+    if not ctx.quick:
+        ctx.mc('MC_TreeSess', 'MC_TreeSess_poppath.cfg', must_fail='PoolsUntouched')
+        ctx.mc('MC_TreeSess', 'MC_TreeSess_selfresult.cfg', must_fail='ResultsIndependent')
+        ctx.mc('MC_TreeSess', 'MC_TreeSess_columns.cfg', must_fail='CallsAreLaw')
     log = Log(ctx, 1500 if ctx.quick else 20000)
     cases = gen(ctx, 'MC_Tree', 'MC_Tree_gen.cfg' if ctx.quick else 'MC_Tree_gent.cfg')     # all three families in one TLC run
     s2c_single(ctx, log, [c for c in cases if c['op'] == 'items'])
@@ -708,6 +1023,10 @@ def run(ctx):
     # histories: the same operand objects handed to consecutive calls and edited by their owner in between (the law - no call has
     # a memory - is checked on the mechanism model in the same TLC run that enumerates the histories)
     s2c_hist(ctx, log, gen(ctx, 'MC_TreeHist', 'MC_TreeHist_gen.cfg' if ctx.quick else 'MC_TreeHist_gent.cfg'))
+    s2c_sess(ctx, log, gen(ctx, 'MC_TreeSess', 'MC_TreeSess_gen.cfg' if ctx.quick else 'MC_TreeSess_gent.cfg'))
+    if not ctx.quick:                      # longer sessions (6 steps), simulated by TLC
+        s2c_sess(ctx, log, sorted(ctx.generate('MC_TreeSess', 'MC_TreeSess_sim.cfg', simulate=2000, depth=7, seed=ctx.seed + 1),
+                                  key=lambda c: json.dumps(c, sort_keys=True)))
     c2s(ctx, log, 300 if ctx.quick else 5000)
     judge(ctx, log, 'Trace_Tree', CASE_KEYS)
     ctx.exhaustive = False
@@ -754,6 +1073,8 @@ def replay(ctx, body):
         o = obs_hto_table(c['objs'], c['rt'], c['pat'], c['form'], rng)
     elif c['op'] == 'hhist':
         o = run_hist(c['objs'], c['hist'], rng)
+    elif c['op'] == 'sess':
+        o = run_sess({k: c[k] for k in ('objs', 'paths', 'tabs')}, list(c['calls']), rng)
     else:
         o = obs_round_rows(c['rows'], c['pat'], c.get('form', 'rows_list'))
     bad = ctx.validate('Trace_Tree', [o])
